@@ -376,7 +376,7 @@ class Scheduler(object):
         lt = me()
         if self.phase != "run":
             raise Abort()
-        return self._choose(n, True, lt)
+        return self._choose(n, None, lt)       # None: environment choice (free of cost)
 
     def point(self, loc=None):
         lt = me()
